@@ -132,6 +132,24 @@ func (c *dq) apply(o MidOp) effect {
 		}
 		c.d.Set(o.A%c.d.Len(), c.fresh())
 		return changed
+	case "Churn":
+		// Exactly 256 or 65536 modifications (by the deque's own counter, read through the hook): a stale-iterator
+		// test that keeps only the low bits of the counter is fooled by exactly such a distance.
+		target := []int{256, 65536}[o.A%2]
+		for i := 0; i < 3*target; i++ {
+			_, _, _, g := c.d.VerifState()
+			d := g - c.genAtIter
+			if d > 0 && d%target == 0 {
+				break
+			}
+			if rem := target - d%target; rem >= 4 || c.d.Len() == 0 {
+				c.d.PushBack(c.fresh())
+				c.d.PopBack()
+			} else {
+				c.d.Set(0, c.fresh())
+			}
+		}
+		return addRemove
 	case "DrainRefill":
 		// Empty the deque, then refill it with fresh values. If emptying rewinds the modification counter,
 		// refill until the counter is back at the value the iterator remembers (a stale iterator would then
@@ -206,6 +224,14 @@ func (c *hp) apply(o MidOp) effect {
 	case "Shrink":
 		c.h.Shrink(o.A % 4)
 		return touched
+	case "Churn": // exactly 256 or 65536 pushes and pops (see the deque's Churn)
+		target := []int{256, 65536}[o.A%2]
+		for i := 0; i < target/2; i++ {
+			c.next++
+			c.h.Push([2]int{o.A % 6, c.next})
+			c.h.Pop()
+		}
+		return addRemove
 	}
 	return none
 }
@@ -296,15 +322,22 @@ func (c *pq) apply(o MidOp) effect {
 	case "Grow":
 		c.q.Grow(o.A)
 		return touched
+	case "Churn": // exactly 256 or 65536 insertions and removals (see the deque's Churn)
+		target := []int{256, 65536}[o.A%2]
+		for i := 0; i < target/2; i++ {
+			c.q.Update(-77, o.B%8)
+			c.q.Remove(-77)
+		}
+		return addRemove
 	}
 	return none
 }
 
 // ---------------------------------------------------------------- generator
 
-var dequeMid = []string{"PushFront", "PushBack", "PopFront", "PopBack", "Set", "Grow", "Shrink", "Grow", "Shrink", "Set", "DrainRefill"}
-var heapMid = []string{"Push", "Pop", "Grow", "Shrink"}
-var queueMid = []string{"UpdateLower", "UpdateHigher", "UpdateEqual", "UpdateLower", "UpdateHigher", "UpdateNew", "Remove", "RemoveAbsent", "Pop", "Grow"}
+var dequeMid = []string{"PushFront", "PushBack", "PopFront", "PopBack", "Set", "Grow", "Shrink", "Grow", "Shrink", "Set", "DrainRefill", "Churn"}
+var heapMid = []string{"Push", "Pop", "Grow", "Shrink", "Push", "Pop", "Churn"}
+var queueMid = []string{"UpdateLower", "UpdateHigher", "UpdateEqual", "UpdateLower", "UpdateHigher", "UpdateNew", "Remove", "RemoveAbsent", "Pop", "Grow", "Churn"}
 var posRel = []string{"root", "last", "inner", "leaf", "any"}
 
 func genMid(t *rapid.T, kind string) MidOp {
@@ -318,6 +351,9 @@ func genMid(t *rapid.T, kind string) MidOp {
 		names = queueMid
 	}
 	o := MidOp{Op: rapid.SampledFrom(names).Draw(t, "mid"), A: rapid.IntRange(0, 100).Draw(t, "a"), B: rapid.IntRange(0, 100).Draw(t, "b")}
+	if o.Op == "Churn" && o.A%2 == 1 && rapid.IntRange(0, 3).Draw(t, "churnbig") != 0 {
+		o.A-- // the 65536 variant is expensive: one churn in eight
+	}
 	if kind == "queue" {
 		o.Rel = rapid.SampledFrom(posRel).Draw(t, "rel")
 	}
@@ -470,6 +506,9 @@ func runPlan(p Plan) (vk.Outcome, error) {
 			out.Label("panicked")
 			return nil
 		}
+		if dead {
+			out.Label("answered-after-a-panic")
+		}
 		if mustPanic {
 			return vk.Violf("no-panic-after-add-remove", "%s: an element was added/removed after iteration had started, yet Next returned (%v,%v) instead of panicking; history %v",
 				what, v, ok, history)
@@ -512,10 +551,43 @@ func runPlan(p Plan) (vk.Outcome, error) {
 			mustPanic = true
 		}
 	}
-	for i := 0; i < size+6 && !dead; i++ {
+	afterPanic := 0
+	for i := 0; i < size+6 && afterPanic < 3; i++ {
+		// (a caller that recovered from the panic and polls again must not be handed wrong data either: the
+		// same oracle applies to whatever the iterator answers then)
+		if dead {
+			afterPanic++
+		}
 		if err := call(fmt.Sprintf("Next #%d after mid ops", i+1)); err != nil {
 			return out, err
 		}
+	}
+	if ended && !dead {
+		// A second iterator, created after the first one has finished: the finished one stays finished (or
+		// panics, if the container was changed since), the new one yields the whole current contents.
+		s2 := c.snapshot()
+		next2 := c.iterate()
+		var v int
+		var ok bool
+		if panicked, _ := vk.Catch(func() { v, ok = next() }); !panicked && ok {
+			return out, vk.Violf("revived", "the exhausted iterator yielded %d after another iterator had been created on the same container", v)
+		}
+		var got2 []int
+		for i := 0; i < len(s2)+3; i++ {
+			var v2 int
+			var ok2 bool
+			if panicked, pv := vk.Catch(func() { v2, ok2 = next2() }); panicked {
+				return out, vk.Violf("panic-unchanged", "second iterator: Next panicked (%v) although the container was not changed since it was created", pv)
+			}
+			if !ok2 {
+				break
+			}
+			got2 = append(got2, v2)
+		}
+		if len(got2) != len(s2) || !isPrefix(got2, s2, c.ordered()) {
+			return out, vk.Violf("wrong-data", "a second iterator created after the first had finished yielded %v, contents %v", got2, s2)
+		}
+		out.Label("second-iterator")
 	}
 	if !dead && !ended {
 		return out, vk.Violf("endless", "iterator still yielding after %d calls on a snapshot of %d", size+6+j, size)
